@@ -8,6 +8,13 @@ is pyzx, whose API changed), so the "standard interpretation" is stated twice, i
     exactly (through recognition in ℤ[ζ₈]/2^e) on every generator and on every generated diagram.
 Correspondence: `circuit2zx(c)` (boxes, offsets, phases) against the model's `gate2zx`/`circuit2zx`,
 and `.dagger()` of ZX diagrams against the model's.
+
+Numeric TYPES (harness/numtypes.py): scalar data and phases are drawn from every kind of number a user
+can pass (Python int/bool/float/complex/Fraction/Decimal, numpy floats / ints / complex of every
+width, 0-d arrays, elements of arrays, sympy Integer/Rational/Float/`Rational + I*Rational`), at
+exactly representable values (Gaussian dyadic rationals, phases n/8).  Whatever object discopy stores
+is read back EXACTLY (`numtypes.exact`), so the numpy oracle and the tokens sent to the Lean model
+carry the exact value whatever its type; the model itself has no notion of the Python type.
 """
 import itertools
 import math
@@ -17,7 +24,10 @@ import random
 import numpy as np
 
 import cyc8
+import numtypes
 import qgen
+from fractions import Fraction
+from numtypes import NumGen
 from common import Driver, Report, lean_obligations, err_class
 from qgen import QGen, build, tok, show, kinds, build_circuit, tok_circuit, show_circuit, eval_io, arity
 
@@ -42,12 +52,21 @@ def _pm_state(minus, n):
     return v
 
 
+def _y_state(minus, n):
+    one = np.array([1, -1j if minus else 1j], dtype=complex) / math.sqrt(2)
+    v = np.ones(1, dtype=complex)
+    for _ in range(n):
+        v = np.kron(v, one)
+    return v
+
+
 def zx_spider(colour, n, m, phase):
     """[input, output] matrix (2^n x 2^m) of a spider with n inputs, m outputs, phase in FULL turns:
-    Z = |0..0><0..0| + e^{2 pi i phase} |1..1><1..1|,  X the same over |+>, |->."""
-    st = _basis_state if colour == "z" else _pm_state
-    mu = cmath.exp(2j * math.pi * phase)
-    return np.outer(st(0, n), st(0, m)) + mu * np.outer(st(1, n), st(1, m))
+    Z = |0..0><0..0| + e^{2 pi i phase} |1..1><1..1|,  X the same over |+>, |->,  Y over |+i>, |-i>
+    (the [input, output] matrix of |s..s><s..s| is outer(conj(s^n), s^m))."""
+    st = {"z": _basis_state, "x": _pm_state, "y": _y_state}[colour]
+    mu = cmath.exp(2j * math.pi * complex(phase))
+    return np.outer(st(0, n).conj(), st(0, m)) + mu * np.outer(st(1, n).conj(), st(1, m))
 
 
 H_IO = np.array([[1, 1], [1, -1]], dtype=complex) / math.sqrt(2)
@@ -55,8 +74,8 @@ SWAP_IO = np.array([[1, 0, 0, 0], [0, 0, 1, 0], [0, 1, 0, 0], [0, 0, 0, 1]], dty
 
 
 def zx_box(b):
-    """b = ("z"|"x", n, m, phase) | ("h",) | ("w",) | ("s", value)."""
-    if b[0] in "zx":
+    """b = ("z"|"x"|"y", n, m, phase) | ("h",) | ("w",) | ("s", value[, exact cyc8 tuple | None])."""
+    if b[0] in "zxy":
         return zx_spider(b[0], b[1], b[2], b[3])
     if b[0] == "h":
         return H_IO
@@ -66,7 +85,7 @@ def zx_box(b):
 
 
 def zx_arity(b):
-    if b[0] in "zx":
+    if b[0] in "zxy":
         return b[1], b[2]
     return {"h": (1, 1), "w": (2, 2), "s": (0, 0)}[b[0]]
 
@@ -82,21 +101,42 @@ def zx_numpy(dom, layers):
     return m, w
 
 
-def read_zx(diagram):
-    """(dom, [(box, offset)]) of a real zx.Diagram."""
+def read_phase(p):
+    """The phase a spider stores, whatever its numeric type: an exact Fraction when it is a real
+    number (always, for finite floats), a complex when it has an imaginary part, else a float."""
+    e = numtypes.exact(p)
+    if e is None:
+        return float(p)
+    return e[0] if e[1] == 0 else complex(float(e[0]), float(e[1]))
+
+
+def read_scalar(x):
+    """("s", complex value, exact cyc8 tuple | None) of the datum a zx.Scalar stores, whatever its
+    numeric type."""
+    e = numtypes.exact(x)
+    if e is None:
+        return ("s", complex(x), None)
+    return ("s", complex(float(e[0]), float(e[1])), cyc8.from_gaussian(*e))
+
+
+def read_zx(diagram, types=None):
+    """(dom, [(box, offset)]) of a real zx.Diagram; `types` (a dict) collects the stored data types."""
     from discopy.quantum import zx
     out = []
     for b, off in zip(diagram.boxes, diagram.offsets):
-        if isinstance(b, zx.Z):
-            out.append((("z", len(b.dom), len(b.cod), b.phase), off))
-        elif isinstance(b, zx.X):
-            out.append((("x", len(b.dom), len(b.cod), b.phase), off))
+        spider = {zx.Z: "z", zx.X: "x", zx.Y: "y"}.get(type(b))
+        if spider is not None:
+            out.append(((spider, len(b.dom), len(b.cod), read_phase(b.phase)), off))
+            if types is not None:
+                types["phase:" + numtypes.kind_of(b.phase)] = True
         elif isinstance(b, zx.Had):
             out.append((("h",), off))
         elif isinstance(b, zx.Swap):
             out.append((("w",), off))
         elif isinstance(b, zx.Scalar):
-            out.append((("s", complex(b.data)), off))
+            out.append((read_scalar(b.data), off))
+            if types is not None:
+                types["scalar:" + numtypes.kind_of(b.data)] = True
         else:
             raise TypeError("unexpected ZX box %r" % (b,))
     return len(diagram.dom), out
@@ -104,14 +144,21 @@ def read_zx(diagram):
 
 def tok_zxbox(b):
     """Driver token of a ZX box, or None if its phase / scalar is not exactly representable."""
+    if b[0] == "y":
+        return None                      # Y spiders are not in the Lean syntax: oracle only
     if b[0] in "zx":
+        if isinstance(b[3], complex):
+            return None
         p = b[3] * 8
-        if abs(p - round(p)) > 1e-12:
+        if isinstance(p, Fraction):
+            if p.denominator != 1:
+                return None
+        elif abs(p - round(p)) > 1e-12:
             return None
         return "%s %d %d %d" % (b[0], b[1], b[2], int(round(p)) % 8)
     if b[0] in "hw":
         return b[0]
-    t = cyc8.recognise(b[1])
+    t = b[2] if len(b) > 2 and b[2] is not None else cyc8.recognise(b[1])
     return None if t is None else "s " + cyc8.scalar_tok(t)
 
 
@@ -125,13 +172,13 @@ def tok_zx(layers):
     return "ok " + " ".join([str(len(layers))] + toks)
 
 
-def proportional(z, e):
+def proportional(z, e, tol=TOL):
     """(ok, k): z == k * e for ONE non-zero scalar k (both zero counts as ok)."""
     scale = max(1.0, float(np.max(np.abs(z))), float(np.max(np.abs(e))))
-    if float(np.max(np.abs(e))) <= TOL * scale:
-        return float(np.max(np.abs(z))) <= TOL * scale, 1.0
+    if float(np.max(np.abs(e))) <= tol * scale:
+        return float(np.max(np.abs(z))) <= tol * scale, 1.0
     k = np.vdot(e, z) / np.vdot(e, e)
-    return abs(k) > TOL and bool(np.all(np.abs(z - k * e) <= TOL * scale)), k
+    return abs(k) > tol and bool(np.all(np.abs(z - k * e) <= tol * scale)), k
 
 
 # --------------------------------------------------------------------------- corrected decompositions
@@ -147,9 +194,48 @@ def fixed_layers(kind, phase):
             (("x", 1, 0, -h), 1)]
 
 
+TYPED_P = 0.4                                   # share of scalars / phases given in a non-plain type
+FLOATY = [k for k in numtypes.REAL_KINDS if not k.ints and k.circuits and k.prec != "f16"]
+FLOATY_ZX = [k for k in numtypes.REAL_KINDS if not k.ints]
+NONINT = [k for k in numtypes.KINDS if not k.ints]
+EVAL_TOL = {"hi": TOL, "f32": 2e-5, "f16": 2e-2}
+
+
+def decimal_fraction(x, digits):
+    return Fraction(int(round(x * 10 ** digits)), 10 ** digits)
+
+
+def typed_rot(gen, kind):
+    """A rotation whose phase is, with probability TYPED_P, given in a random real numeric type."""
+    g = gen.rot(kind)
+    rng = gen.rng
+    if rng.random() >= TYPED_P:
+        return g
+    if g[2] is not None:
+        _, v = NumGen(rng).phase(g[2], circuits=True)
+    else:
+        v = rng.choice(FLOATY).make(decimal_fraction(g[3], 6), Fraction(0))
+    return ("R", kind, g[2], v)
+
+
+def typed_scalar(gen):
+    """A scalar gate whose datum is, with probability TYPED_P, given in a random numeric type (zero,
+    negative, real, imaginary and general values)."""
+    rng = gen.rng
+    if rng.random() >= TYPED_P:
+        return gen.scalar()
+    if gen.exact:
+        _, v, (re, im) = NumGen(rng).scalar(circuits=True)
+        return ("S", cyc8.from_gaussian(re, im), v)
+    kind = rng.choice([k for k in NONINT if k.circuits])
+    re = decimal_fraction(rng.uniform(-2, 2), 3)
+    im = decimal_fraction(rng.uniform(-2, 2), 3) if kind.cplx else Fraction(0)
+    return ("S", None, kind.make(re, im))
+
+
 def zx_gateset(gen, w):
     """Gate classes of the property's quantifier: Ket, Bra, H, X, Y, Z, CX, CZ, Rx, Rz, CRz, CRx, CU1,
-    SWAP, scalar — and their daggers."""
+    SWAP, scalar — and their daggers; phases and scalar data in every numeric type."""
     rng = gen.rng
     opts = ["scalar"]
     if w >= 1:
@@ -162,11 +248,11 @@ def zx_gateset(gen, w):
     if o == "n1":
         g = ("N", rng.choice(("H", "X", "Y", "Z")))
     elif o == "r1":
-        g = gen.rot(rng.choice(("Rx", "Rz")))
+        g = typed_rot(gen, rng.choice(("Rx", "Rz")))
     elif o == "n2":
         g = ("N", rng.choice(("CX", "CZ")))
     elif o == "r2":
-        g = gen.rot(rng.choice(F7_KINDS))
+        g = typed_rot(gen, rng.choice(F7_KINDS))
     elif o == "swap":
         g = ("W",)
     elif o == "ket":
@@ -174,7 +260,8 @@ def zx_gateset(gen, w):
     elif o == "bra":
         return ("B", gen.bits(rng.randint(1, min(2, w))))
     else:
-        return gen.scalar()
+        g = typed_scalar(gen)
+        return ("D", g) if rng.random() < 0.25 else g
     if rng.random() < 0.25:
         g = ("D", g)
     return g
@@ -196,12 +283,141 @@ def f7_gate(g):
     return g[0] == "R" and g[1] in F7_KINDS
 
 
+def desc_values(g):
+    """[(role, value)] of the numbers a gate descriptor carries."""
+    k = g[0]
+    if k in "DC":
+        return desc_values(g[1])
+    if k == "R":
+        return [("phase", g[3])]
+    if k == "S":
+        return [("scalar", g[2])]
+    return []
+
+
+def value_prec(v):
+    dt = getattr(v, "dtype", None)
+    if dt is None:
+        return "hi"
+    if dt == np.float16:
+        return "f16"
+    return "f32" if dt in (np.float32, np.complex64) else "hi"
+
+
+def worst_prec(values):
+    precs = {value_prec(v) for v in values}
+    return "f16" if "f16" in precs else "f32" if "f32" in precs else "hi"
+
+
+def plain(g):
+    """The descriptor with every number turned into a Python float / complex (for the textbook
+    matrices of qgen.std_io, which know nothing of numeric types)."""
+    k = g[0]
+    if k in "DC":
+        return (k, plain(g[1]))
+    if k == "R":
+        return ("R", g[1], g[2], numtypes.to_complex(g[3]).real)
+    if k == "S":
+        return ("S", g[1], numtypes.to_complex(g[2]))
+    return g
+
+
+def integer_phase(v):
+    e = numtypes.exact(v)
+    return e is not None and e[1] == 0 and e[0].denominator == 1
+
+
+# --------------------------------------------------------------------------- ZX diagram descriptors
+# zxd = (start, layers): start = ("id", w) | ("c2zx", n_in, circuit layers);
+# layers = [(box, offset)], box = ("z"|"x"|"y", n, m, phase object) | ("h",) | ("w",) | ("s", datum object)
+
+def build_zxbox(b):
+    from discopy.quantum import zx
+    if b[0] in "zxy":
+        return {"z": zx.Z, "x": zx.X, "y": zx.Y}[b[0]](b[1], b[2], b[3])
+    if b[0] == "h":
+        return zx.Had()
+    if b[0] == "w":
+        return zx.SWAP
+    return zx.scalar(b[1])
+
+
+def show_zxbox(b):
+    if b[0] in "zxy":
+        return "%s(%d, %d, %s)" % (b[0].upper(), b[1], b[2], numtypes.show(b[3]))
+    if b[0] == "h":
+        return "H"
+    if b[0] == "w":
+        return "SWAP"
+    return "scalar(%s)" % numtypes.show(b[1])
+
+
+def desc_arity(b):
+    if b[0] in "zxy":
+        return b[1], b[2]
+    return {"h": (1, 1), "w": (2, 2), "s": (0, 0)}[b[0]]
+
+
+def build_zx(zxd):
+    from discopy.quantum import zx
+    start, layers = zxd
+    if start[0] == "id":
+        d = zx.Id(start[1])
+    else:
+        d = zx.circuit2zx(build_circuit(start[1], start[2]))
+    w = len(d.cod)
+    for b, off in layers:
+        box = build_zxbox(b)
+        d = d >> zx.Id(off) @ box @ zx.Id(w - off - len(box.dom))
+        w = len(d.cod)
+    return d
+
+
+def show_zx(zxd):
+    start, layers = zxd
+    head = "Id(%d)" % start[1] if start[0] == "id" else "circuit2zx(%s)" % show_circuit(start[1], start[2])
+    w = start[1] if start[0] == "id" else start[1] + sum(
+        arity(g)[1] - arity(g)[0] for _, g, _ in start[2])
+    out = [head]
+    for b, off in layers:
+        dm, cd = desc_arity(b)
+        out.append("Id(%d) @ %s @ Id(%d)" % (off, show_zxbox(b), w - off - dm))
+        w = w - dm + cd
+    return " >> ".join(out)
+
+
+class LibError(Exception):
+    """An exception raised by discopy (or by reading what it returned) at a named stage."""
+
+    def __init__(self, stage, exc):
+        Exception.__init__(self, "%s: %s: %s" % (stage, type(exc).__name__, exc))
+        self.stage, self.exc = stage, exc
+
+
 class Check:
     def __init__(self, rep, drv, rng):
         self.rep, self.drv, self.rng = rep, drv, rng
         self.switches = drv.ask("switches")
         self.f7 = "1" if "f7=1" in self.switches else "0"
         self.float_cmp = 0
+
+    def lib(self, stage, fn, *args):
+        try:
+            return fn(*args)
+        except Exception as exc:  # noqa: reported with the input by the caller
+            raise LibError(stage, exc)
+
+    def guarded(self, case, fn, *args):
+        """Run one case; an unexpected exception of the library is a failure WITH the input."""
+        try:
+            fn(*args)
+        except LibError as le:
+            self.rep.fail("unexpected_exception:%s:%s" % (le.stage, err_class(le.exc)), case,
+                          "discopy raised %s" % le)
+
+    def note_types(self, types):
+        for t in sorted(types):
+            self.rep.count("stored:" + t)
 
     # ---- model semantics vs textbook semantics, generator by generator
 
@@ -228,15 +444,23 @@ class Check:
     # ---- one circuit (a single gate is a circuit of one layer)
 
     def circuit(self, n_in, layers, stream):
+        case = dict(circuit=show_circuit(n_in, layers), stream=stream)
+        self.guarded(case, self._circuit, n_in, layers, stream, case)
+
+    def _circuit(self, n_in, layers, stream, case):
         from discopy.quantum import zx
         rep = self.rep
-        case = dict(circuit=show_circuit(n_in, layers), stream=stream)
-        c = build_circuit(n_in, layers)
+        c = self.lib("build-circuit", build_circuit, n_in, layers)
         exact = all(exact_desc(g) for _, g, _ in layers)
         allk = [k for _, g, _ in layers for k in kinds(g)]
         for k in set(allk):
             rep.count("has:" + k)
-        nontrivial = any(not (g[0] == "R" and g[3] % 1 == 0) and g[0] != "S" for _, g, _ in layers)
+        values = [rv for _, g, _ in layers for rv in desc_values(g)]
+        for role, v in values:
+            rep.count("given:%s:%s" % (role, numtypes.kind_of(v)))
+        prec = worst_prec([v for _, v in values])
+        nontrivial = any(not (g[0] == "R" and integer_phase(g[3])) and g[0] != "S" for _, g, _ in layers) \
+            or any(type(v) not in (int, float, complex) for _, v in values)
         rep.case(stream + "|" + case["circuit"], nontrivial)
         rep.sample(case)
         try:
@@ -246,9 +470,14 @@ class Check:
             d, real_err = None, "err index"
         except Exception as exc:
             d, real_err = None, "err " + err_class(exc)
+        types = {}
+        zl = None
+        if d is not None:
+            dom, zl = self.lib("read-zx", read_zx, d, types)
+            self.note_types(types)
         if exact:
             model = self.drv.ask("c2zx %s %s" % (self.f7, tok_circuit(layers)))
-            real = real_err if d is None else (tok_zx(read_zx(d)[1]) or "unrepresentable")
+            real = real_err if d is None else (tok_zx(zl) or "unrepresentable")
             rep.count("exact_structure_comparisons")
             if real != model:
                 rep.disagree("c2zx", case, real[:400], model[:400])
@@ -257,30 +486,31 @@ class Check:
             if all(self.supported(g) for _, g, _ in layers):
                 rep.fail("circuit2zx_raises:" + real_err, case, "supported gate set but circuit2zx raised")
             return
-        dom, zl = read_zx(d)
-        e = eval_io(c)
+        try:
+            e = eval_io(c)
+        except Exception:  # noqa: the circuit's own evaluation is not this property's subject
+            rep.count("eval_unavailable_textbook_used")
+            e = qgen.product_io(n_in, [(l, plain(g), r) for l, g, r in layers], qgen.std_io)
         # arity
         if dom != len(c.dom) or len(d.cod) != len(c.cod):
             rep.fail("circuit2zx_arity", case, "ZX diagram has %d -> %d wires, circuit %d -> %d" % (
                 dom, len(d.cod), len(c.dom), len(c.cod)))
             return
-        z, cod = zx_numpy(dom, zl)
+        z, cod = self.lib("zx-semantics", zx_numpy, dom, zl)
         if exact:
             t = tok_zx(zl)
             if t is not None:
-                m = self.drv.ask("zxeval %d %s" % (dom, t[3:]))
-                r = cyc8.recognise_matrix(z, 2 ** dom, 2 ** cod) or "unrepresentable"
-                rep.count("exact_semantics_comparisons")
-                if r != m:
-                    rep.disagree("zxeval", case, r[:300], m[:300])
+                self.compare_semantics(z, dom, cod, t, case)
         # oracle: proportional to the circuit's evaluation with ONE non-zero scalar
-        ok, k = proportional(z, e)
+        ok, k = proportional(z, e, EVAL_TOL[prec])
         self.float_cmp += 1
+        if prec != "hi":
+            rep.count("proportionality_at_%s_tolerance" % prec)
         if not ok:
             if any(f7_gate(g) for _, g, _ in layers):
-                zl2 = self.repaired_layers(layers)
+                zl2 = self.lib("repaired", self.repaired_layers, layers)
                 z2, _ = zx_numpy(dom, zl2)
-                ok2, _ = proportional(z2, e)
+                ok2, _ = proportional(z2, e, EVAL_TOL[prec])
                 if ok2:
                     rep.fail("circuit2zx_not_proportional:CRz|CRx|CU1", case,
                              "not proportional to the evaluation; proportional once the decompositions "
@@ -291,7 +521,26 @@ class Check:
                 rep.fail("circuit2zx_not_proportional", case,
                          "ZX diagram does not denote the evaluation up to a non-zero scalar")
         # oracle: dagger of the ZX diagram denotes the conjugate transpose
-        self.zx_dagger(d, z, case, exact)
+        self.zx_dagger(d, zl, z, case, exact)
+
+    def compare_semantics(self, z, dom, cod, t, case):
+        """Model's interpretation of the diagram (tokens `t`) against the textbook one (`z`): exactly,
+        through recognition of the numpy entries in Z[zeta_8]/2^e; where an entry lies outside the
+        recogniser's range (products of several large scalars: numerators beyond cyc8.UMAX) the model's
+        exact entries are compared with the numpy ones at relative 1e-9 instead (counted)."""
+        rep = self.rep
+        m = self.drv.ask("zxeval %d %s" % (dom, t[3:]))
+        r = cyc8.recognise_matrix(z, 2 ** dom, 2 ** cod)
+        rep.count("exact_semantics_comparisons")
+        if r == m:
+            return
+        if m.startswith("ok "):
+            mm = cyc8.parse_matrix(m)
+            scale = max(1.0, float(np.max(np.abs(z))) if z.size else 1.0)
+            if mm.size == z.size and bool(np.all(np.abs(mm.reshape(z.shape) - z) <= TOL * scale)):
+                rep.count("semantics_compared_numerically_beyond_recogniser_range")
+                return
+        rep.disagree("zxeval", case, (r or "unrepresentable")[:300], m[:300])
 
     def supported(self, g):
         g = qgen.norm(g)
@@ -312,73 +561,209 @@ class Check:
         for l, g, _ in layers:
             n = qgen.norm(g)
             if n[0] == "R" and n[1] in F7_KINDS:
-                sub = fixed_layers(n[1], n[3])
+                sub = fixed_layers(n[1], numtypes.to_complex(n[3]).real)
             else:
                 sub = read_zx(zx.circuit2zx(build(g)))[1]
             out += [(b, o + l) for b, o in sub]
         return out
 
-    def zx_dagger(self, d, z, case, exact):
+    def zx_dagger(self, d, zl, z, case, exact, twice=False):
+        """[[d.dagger()]] = [[d]]^H (numpy, on the exactly read data) and, where every phase and scalar
+        is representable, d.dagger() = the model's dagger, box by box."""
         rep = self.rep
-        dd = d.dagger()
-        dom2, zl2 = read_zx(dd)
-        z2, _ = zx_numpy(dom2, zl2)
+        dd = self.lib("dagger", d.dagger)
+        types = {}
+        dom2, zl2 = self.lib("read-dagger", read_zx, dd, types)
+        self.note_types(types)
+        if (dom2, len(dd.cod)) != (len(d.cod), len(d.dom)):
+            rep.fail("zx_dagger_arity", case, "dagger has %d -> %d wires, diagram %d -> %d" % (
+                dom2, len(dd.cod), len(d.dom), len(d.cod)))
+            return
+        z2, _ = self.lib("zx-semantics-dagger", zx_numpy, dom2, zl2)
         self.float_cmp += 1
         rep.count("zx_dagger_checked")
         if z2.shape != z.conj().T.shape or not np.all(
                 np.abs(z2 - z.conj().T) <= TOL * max(1.0, float(np.max(np.abs(z))))):
-            rep.fail("zx_dagger_not_adjoint", case, "[[d.dagger()]] != [[d]]^H")
+            bad = self.non_conjugated(zl, zl2)
+            rep.fail("zx_dagger_not_adjoint" + (":scalar_not_conjugated" if bad else ""), case,
+                     "[[d.dagger()]] != [[d]]^H" + (
+                         "; the dagger keeps the non-real scalar(s) %s unconjugated" % bad if bad else ""))
         if exact:
-            t1, t2 = tok_zx(read_zx(d)[1]), tok_zx(zl2)
+            t1, t2 = tok_zx(zl), tok_zx(zl2)
             if t1 is not None and t2 is not None:
                 model = self.drv.ask("zxdag " + t1[3:])
                 rep.count("exact_structure_comparisons")
                 if t2 != model:
                     rep.disagree("zxdag", case, t2[:300], model[:300])
+        if twice:
+            d3 = self.lib("dagger-twice", lambda: dd.dagger())
+            dom3, zl3 = self.lib("read-dagger-twice", read_zx, d3)
+            z3, _ = self.lib("zx-semantics-dagger-twice", zx_numpy, dom3, zl3)
+            if z3.shape != z.shape or not np.all(np.abs(z3 - z) <= TOL * max(1.0, float(np.max(np.abs(z))))):
+                rep.fail("zx_dagger_twice_not_identity", case, "[[d.dagger().dagger()]] != [[d]]")
 
-    # ---- random ZX diagrams (not images of circuits), for the dagger clause
+    @staticmethod
+    def non_conjugated(zl, zl2):
+        """Diagnosis only (narrows the signature): the non-real scalar values of d that occur in
+        d.dagger() more often than their conjugates allow."""
+        def values(layers):
+            out = {}
+            for b, _ in layers:
+                if b[0] == "s":
+                    key = (round(b[1].real, 9), round(b[1].imag, 9))
+                    out[key] = out.get(key, 0) + 1
+            return out
+        before, after = values(zl), values(zl2)
+        bad = []
+        for (re, im), n in sorted(before.items()):
+            if im != 0 and after.get((re, -im), 0) < n and after.get((re, im), 0) > before.get((re, -im), 0):
+                bad.append(complex(re, im))
+        return bad
 
-    def random_zx(self):
-        from discopy.quantum import zx
-        rng, rep = self.rng, self.rep
-        w = rng.randint(0, 3)
-        d = zx.Id(w)
-        desc = ["Id(%d)" % w]
-        for _ in range(rng.randint(1, 6)):
-            o = rng.choice(["z", "x", "z", "x", "h", "w", "s"])
-            if o in "zx":
-                n = rng.randint(0, min(2, w))
-                m = rng.randint(0, 2 if w - n + 2 <= 4 else max(0, 4 - (w - n)))
-                ph = rng.randint(-8, 8) / 8.0 if rng.random() < 0.5 else round(rng.uniform(-1, 1), 4)
-                b = (zx.Z if o == "z" else zx.X)(n, m, ph)
-            elif o == "h":
-                if w < 1:
-                    continue
-                b = zx.Had()
-            elif o == "w":
-                if w < 2:
-                    continue
-                b = zx.SWAP
-            else:
-                b = zx.scalar(rng.choice([0.5, 1j, -1.0, 0.5 + 0.5j, 2.0]))
-            off = rng.randint(0, w - len(b.dom))
-            d = d >> zx.Id(off) @ b @ zx.Id(w - off - len(b.dom))
-            w = len(d.cod)
-            desc.append("Id(%d) @ %r @ Id(%d)" % (off, b, w - off - len(b.cod)))
-        case = dict(zx=" >> ".join(desc), stream="random-zx")
-        dom, zl = read_zx(d)
-        z, cod = zx_numpy(dom, zl)
-        rep.case("rzx|" + case["zx"], len(zl) >= 2)
-        rep.count("random_zx_diagrams")
+    # ---- ZX diagrams that are not (only) images of circuits, for the dagger clause
+
+    def zxdiagram(self, zxd, stream, twice=False):
+        case = dict(zx=show_zx(zxd), stream=stream)
+        self.guarded(case, self._zxdiagram, zxd, stream, case, twice)
+
+    def _zxdiagram(self, zxd, stream, case, twice):
+        rep = self.rep
+        start, layers = zxd
+        for b, _ in layers:
+            if b[0] in "zxy":
+                rep.count("given:zx-phase:" + numtypes.kind_of(b[3]))
+                rep.count("zx-spider:" + b[0].upper())
+            elif b[0] == "s":
+                rep.count("given:zx-scalar:" + numtypes.kind_of(b[1]))
+        if start[0] == "c2zx":
+            rep.count("zx_diagrams_extending_a_circuit2zx_image")
+            for _, g, _ in start[2]:
+                for role, v in desc_values(g):
+                    rep.count("given:%s:%s" % (role, numtypes.kind_of(v)))
+        d = self.lib("build-zx", build_zx, zxd)
+        types = {}
+        dom, zl = self.lib("read-zx", read_zx, d, types)
+        self.note_types(types)
+        z, cod = self.lib("zx-semantics", zx_numpy, dom, zl)
+        typed = any(not t.split(":")[1] in ("int", "float", "complex") for t in types)
+        rep.case(stream + "|" + case["zx"], len(zl) >= 2 or typed)
+        rep.sample(case)
+        rep.count("zx_diagrams:" + stream)
         t = tok_zx(zl)
         exact = t is not None
         if exact:
-            m = self.drv.ask("zxeval %d %s" % (dom, t[3:]))
-            r = cyc8.recognise_matrix(z, 2 ** dom, 2 ** cod) or "unrepresentable"
-            rep.count("exact_semantics_comparisons")
-            if r != m:
-                rep.disagree("zxeval", case, r[:300], m[:300])
-        self.zx_dagger(d, z, case, exact)
+            self.compare_semantics(z, dom, cod, t, case)
+        self.zx_dagger(d, zl, z, case, exact, twice)
+
+    def random_zxd(self):
+        """A random ZX diagram: Id(w) or the circuit2zx image of a small random circuit, followed by 1-6
+        generators (Z/X/Y spiders, H, SWAP, scalars) whose phases / data are typed with probability 1/2."""
+        rng = self.rng
+        ng = NumGen(rng)
+        if rng.random() < 0.25:
+            gen = QGen(random.Random(rng.getrandbits(64)), exact=True, gateset=zx_gateset, max_wires=3)
+            n_in, cl = gen.circuit(depth=rng.randint(1, 3))
+            while not all(self.supported(g) for _, g, _ in cl):
+                n_in, cl = gen.circuit(depth=rng.randint(1, 3))
+            start = ("c2zx", n_in, cl)
+            w = n_in + sum(arity(g)[1] - arity(g)[0] for _, g, _ in cl)
+        else:
+            w = rng.randint(0, 3)
+            start = ("id", w)
+        layers = []
+        for _ in range(rng.randint(1, 6)):
+            o = rng.choice(["z", "x", "z", "x", "y", "h", "w", "s", "s"])
+            typed = rng.random() < 0.5
+            if o in "zxy":
+                n = rng.randint(0, min(2, w))
+                m = rng.randint(0, 2 if w - n + 2 <= 4 else max(0, 4 - (w - n)))
+                if rng.random() < 0.5:
+                    n8 = rng.randint(-8, 8)
+                    ph = ng.phase(n8)[1] if typed else n8 / 8.0
+                else:
+                    ph = round(rng.uniform(-1, 1), 4)
+                    if typed:
+                        ph = rng.choice(FLOATY_ZX).make(decimal_fraction(ph, 4), Fraction(0))
+                b = (o, n, m, ph)
+            elif o == "h":
+                if w < 1:
+                    continue
+                b = ("h",)
+            elif o == "w":
+                if w < 2:
+                    continue
+                b = ("w",)
+            else:
+                b = ("s", ng.scalar()[1] if typed else
+                     rng.choice([0.5, 1j, -1.0, 0.5 + 0.5j, 2.0, 0, -0.25 - 0.75j, 1.5 - 2j]))
+            dm, cd = desc_arity(b)
+            off = rng.randint(0, w - dm)
+            layers.append((b, off))
+            w = w - dm + cd
+        return start, layers
+
+    def random_zx(self):
+        self.zxdiagram(self.random_zxd(), "random-zx")
+
+    # ---- every numeric type, systematically
+
+    SCALAR_VALUES = [(Fraction(0), Fraction(0)), (Fraction(1), Fraction(0)), (Fraction(-1), Fraction(0)),
+                     (Fraction(1, 2), Fraction(0)), (Fraction(-3, 4), Fraction(0)), (Fraction(3), Fraction(0)),
+                     (Fraction(0), Fraction(1)), (Fraction(0), Fraction(-1, 2)),
+                     (Fraction(1, 2), Fraction(1, 4)), (Fraction(-3, 8), Fraction(-5, 4)),
+                     (Fraction(2), Fraction(-1)), (Fraction(1, 2), Fraction(1, 3)),
+                     (Fraction(-2, 3), Fraction(0))]
+    PHASES = [0, 1, -3, 2, 4, -6, 8, -16, 5]        # eighths of a full turn
+
+    def zx_context(self, which, b):
+        """A ZX diagram holding the box `b` (arity 0 -> 0): alone / next to a wire / in the middle."""
+        if which == 0:
+            return ("id", 0), [(b, 0)]
+        if which == 1:
+            return ("id", 1), [(("z", 1, 1, 0.25), 0), (b, 1)]
+        return ("id", 1), [(("z", 1, 2, 0.375), 0), (("h",), 1), (("w",), 0), (b, 1),
+                           (("x", 2, 1, -0.25), 0), (("z", 1, 0, 0.125), 0)]
+
+    def typed_sweep(self, thorough):
+        """Every numeric type x (zero, +-real, +-imaginary, general, non-dyadic) as ZX scalar datum, as
+        Z/X/Y spider phase, as circuit scalar and as rotation phase."""
+        turn = 0
+        for kind in numtypes.KINDS:
+            for re, im in self.SCALAR_VALUES:
+                if not numtypes.fits(kind, re, im):
+                    continue
+                v = kind.make(re, im)
+                turn += 1
+                for which in ((0, 1, 2) if thorough else (0, 1 + turn % 2)):
+                    self.zxdiagram(self.zx_context(which, ("s", v)), "typed-zx-scalar", twice=True)
+                if kind.circuits:
+                    self.circuit(0, [(0, ("S", cyc8.from_gaussian(re, im), v), 0)], "typed-scalar")
+                    if thorough or turn % 2:
+                        t = cyc8.from_gaussian(re, im)
+                        sg = ("S", t, v)
+                        self.circuit(0, [(0, ("K", (turn % 2,)), 0), (0, ("N", "H"), 0), (0 if turn % 4 < 2 else 1, sg, 1 if turn % 4 < 2 else 0),
+                                         (0, ("R", "Rz", 2, 0.25), 0), (0, ("D", sg), 1), (0, ("B", (1,)), 0)],
+                                     "typed-scalar")
+            if kind.cplx:
+                continue
+            for i, n8 in enumerate(self.PHASES):
+                if not numtypes.fits(kind, Fraction(n8, 8), Fraction(0)) or kind.name == "np.uint8":
+                    continue
+                v = kind.make(Fraction(n8, 8), Fraction(0))
+                for j, colour in enumerate("zxy"):
+                    shapes = [(1, 2), (0, 1), (2, 0), (1, 1), (2, 2), (0, 0)]
+                    for n, m in (shapes if thorough else [shapes[(i + j + turn) % 6]]):
+                        self.zxdiagram((("id", n), [((colour, n, m, v), 0)]), "typed-zx-phase", twice=True)
+                    self.zxdiagram((("id", 1), [(("z", 1, 2, 0.375), 0), ((colour, 1, 1, v), 1),
+                                                (("x", 2, 1, v), 0)]), "typed-zx-phase")
+                if kind.circuits and n8 % 2 == 0:
+                    rots = ("Rx", "Rz") + F7_KINDS
+                    for r, rk in enumerate(rots):
+                        if not thorough and (r + i) % 2:
+                            continue
+                        g = ("R", rk, n8, v)
+                        self.circuit(arity(g)[0], [(0, g, 0)], "typed-rot")
+                        self.circuit(arity(g)[0], [(0, ("D", g), 0)], "typed-rot")
 
 
 def run(tier, seed, replay=None):
@@ -388,11 +773,20 @@ def run(tier, seed, replay=None):
                 "CU1, SWAP, scalar} and its dagger, rotations at all phases k/8 (|k| <= 16) and at random "
                 "float phases, all bitstrings of length <= 3; unsupported gates (S, T, Ry, Controlled(Z)) for "
                 "the refusal; (2) random pure circuits over that set on 0-4 wires, depth 1-8, random offsets "
-                "and bitstrings, half at exactly representable phases; (3) random ZX diagrams of 1-6 "
-                "generators (arities 0-2, phases k/8 or random) for the dagger clause; (4) all spiders with "
-                "<= 2 (3 thorough) legs per side at all phases k/8: model semantics = textbook semantics. "
-                "Non-trivial = contains a gate other than a scalar or a rotation at an integer phase; "
-                "distinct by printed form")
+                "and bitstrings, half at exactly representable phases; (3) random ZX diagrams: Id(w) or the "
+                "circuit2zx image of a random circuit followed by 1-6 generators (Z/X/Y spiders of arities 0-2, "
+                "H, SWAP, scalars; phases k/8 or random) for the dagger clause; (4) all spiders with "
+                "<= 2 (3 thorough) legs per side at all phases k/8: model semantics = textbook semantics; "
+                "(5) NUMERIC TYPES: 40 % of the scalar data and rotation phases of (2) and half of the data of "
+                "(3) are given in a random type out of 33 (Python int/bool/float/complex/Fraction/Decimal, "
+                "numpy float16/32/64/longdouble, int8/32/64, uint8, complex64/128/clongdouble, 0-d arrays, "
+                "array elements, sympy Integer/Rational/Float/Rational+I*Rational/Float+I*Float), and a "
+                "systematic sweep puts every type x {0, +-real, +-imaginary, general, non-dyadic} as a ZX "
+                "scalar (alone / beside a wire / inside a diagram), as Z/X/Y spider phase, as circuit scalar "
+                "(alone and inside a circuit, also daggered) and as phase of Rx/Rz/CRz/CRx/CU1; counts under "
+                "`given:*` (type handed in) and `stored:*` (type found in the ZX diagram / its dagger). "
+                "Non-trivial = contains a gate other than a scalar or a rotation at an integer phase, or a "
+                "number of a type other than int/float/complex; distinct by printed form")
     rep.partial = [
         "the lifting of the per-gate theorem to whole circuits (one overall non-zero scalar = product of the "
         "per-gate scalars) is proved in Lean for every well-typed circuit over the translated gate set at the "
@@ -401,7 +795,17 @@ def run(tier, seed, replay=None):
         "the dagger of a whole ZX diagram is proved (every well-typed diagram, any arities and phases) for the "
         "model's interpretation; discopy's own .dagger() is tied to the model's by exact correspondence",
         "gate2zx_sound for kets/bras is decided for bitstrings of <= 3 bits; the as-is CRx image is refuted at "
-        "phase 1/4 only (CRz, CU1: exact extent proved for every real phase)"]
+        "phase 1/4 only (CRz, CU1: exact extent proved for every real phase)",
+        "the numeric TYPE of a Python datum is not modelled: the model's scalars are exact elements of "
+        "Z[zeta_8][1/2] (Gaussian dyadic rationals included) and its phases integers n/8; the correspondence "
+        "reads the datum discopy stores, whatever its type (Python, numpy, 0-d array, sympy), to its exact "
+        "value before comparing, so type-dependent behaviour of the code (a dagger that conjugates only some "
+        "types) shows as a wrong VALUE; values outside Z[zeta_8][1/2] (1/2 + i/3) and Y spiders (not in the "
+        "Lean syntax) are decided by the numpy oracle only",
+        "Decimal data are exercised in ZX diagrams only (discopy cannot evaluate a circuit holding a Decimal); "
+        "for float16 / float32 / complex64 data the circuit's own evaluation is computed by numpy at that "
+        "precision, so proportionality to it is checked at 2e-2 / 2e-5 (counted), while the ZX side and the "
+        "dagger clause are always evaluated from the exact values at 1e-9"]
     rep.assumptions = [
         "discopy 0.3.5 cannot evaluate ZX diagrams itself; the standard interpretation is the textbook one "
         "written independently in harness/props/c16.py (numpy) and in lean/Model/Gates.lean, compared "
@@ -436,14 +840,17 @@ def run(tier, seed, replay=None):
                 chk.circuit(k, [(0, ("B", bits), 0)], "ketbra")
         for t in qgen.EXACT_SCALARS:
             chk.circuit(0, [(0, ("S", t, cyc8.to_complex(t)), 0)], "scalar")
+        # every numeric type, systematically
+        chk.typed_sweep(thorough)
         # circuits
         for k in range(400 if not thorough else 5000):
             gen = QGen(random.Random(rng.getrandbits(64)), exact=(k % 2 == 0), gateset=zx_gateset)
             n_in, layers = gen.circuit()
             chk.circuit(n_in, layers, "circuit")
-        for _ in range(300 if not thorough else 4000):
+        for _ in range(400 if not thorough else 5000):
             chk.random_zx()
         rep.extra["float_oracle_comparisons"] = chk.float_cmp
+        rep.extra["numeric_types"] = [k.name for k in numtypes.KINDS]
     finally:
         drv.close()
     return rep.finish()
